@@ -152,6 +152,7 @@ GEN_FILES = {
     "ffi": ["Ffi.lean"],
     "translator": ["OpTables.lean", "PanicSites.lean", "MapRange.lean"],
     "printer": ["PrinterFacts.lean"],
+    "guards": ["Guards.lean"],
 }
 ALL_GENS = []  # filled by ensure_built callers; empty list = all generators
 
